@@ -293,6 +293,15 @@ class Session:
         how = form.get("how", "array")
         if how == "frame":
             self.nsrc += 1
+            if form.get("read") == "columns" and k > 1:
+                # the other frame holds the columns in memory order `mem`; read_columns(name=[...]) returns them in
+                # the requested order: a multi-field view (permuted offsets, text as objects)
+                mem = list(form.get("mem") or range(k))
+                order = sorted(range(k), key=lambda j: mem[j])
+                cd = OrderedDict((names[j], np_type(fields[j][1], 0)) for j in order)
+                src = self.block.create_data_frame("src%d" % self.nsrc, "c16.src", col_dict=cd,
+                                                   data=[tuple(t[j] for j in order) for t in tup] or None)
+                return src.read_columns(name=list(names))
             cd = OrderedDict((nm, np_type(t, 0)) for nm, t in fields)
             src = self.block.create_data_frame("src%d" % self.nsrc, "c16.src", col_dict=cd, data=tup or None)
             if n and form.get("read", "rows") == "rows":
@@ -629,7 +638,12 @@ def gen_layout(rng, k, stats=None, allow_frame=True):
     how = rng.choice(["array", "array", "view", "view", "voids"] + (["frame", "frame"] if allow_frame else []))
     form = {"how": how}
     if how == "frame":
-        form["read"] = rng.choice(["rows", "all"])
+        form["read"] = rng.choice(["rows", "all", "columns"])
+        if form["read"] == "columns" and k > 1 and rng.random() < 0.7:
+            mem = list(range(k))
+            while mem == list(range(k)):
+                rng.shuffle(mem)
+            form["mem"] = mem
     else:
         if k > 1 and rng.random() < 0.6:
             mem = list(range(k))
@@ -1479,6 +1493,9 @@ def describe_form(form):
            "voids": "a list of np.void records", "frame": "the structured array read from another data frame"}[
         form.get("how", "array")]
     extra = []
+    if form.get("how") == "frame":
+        extra.append({"rows": "read_rows([...])", "all": "frame[:]", "columns": "read_columns(name=[...])"}[
+            form.get("read", "rows")])
     if form.get("rec"):
         extra.append("fields %s" % ", ".join("%r:%s" % (f[0], f[1]) for f in form["rec"]))
     if form.get("mem"):
